@@ -30,7 +30,7 @@ theorem applyOne_ok_sim {fs : FS} {st st' : St} {t : ATree} {cfg : Cfg} {i : Nat
     (hs : SameTree fs (ofMem st.mem) t) (hde : MemDE st.mem) (hw : fp.WFlen)
     (h : applyOne st fs cfg i entry fp = .ok (st', b)) :
     ∃ r, applyFP t fs cfg entry fp = .ok r ∧ b = r.ok ∧ SameTree fs (ofMem st'.mem) r.tree ∧ MemDE st'.mem ∧
-      ∃ L, st'.applied = L ++ st.applied ∧ (∀ s ∈ L, s.index = i) ∧ Undoable fs st.mem L st'.mem ∧
+      ∃ L, st'.applied = L ++ st.applied ∧ (∀ s ∈ L, s.index = i) ∧ Chain fs st.mem L st'.mem ∧
         rejsOf L = r.rej.toList := by
   unfold applyOne at h
   split at h
@@ -80,7 +80,7 @@ theorem applyOne_ok_sim {fs : FS} {st st' : St} {t : ATree} {cfg : Cfg} {i : Nat
                 · exact (Ext.sameTree hext).trans hs
                 · exact hdemem2.put _ hdefile
                 · intro s hs; cases hs
-                · exact Undoable.nil hext
+                · exact hext
               · rename_i moved hmi
                 obtain ⟨href, hmoved⟩ := moveIn_some hmi
                 subst hmoved
@@ -105,12 +105,12 @@ theorem applyOne_ok_sim {fs : FS} {st st' : St} {t : ATree} {cfg : Cfg} {i : Nat
                   · intro s hs
                     simp only [List.mem_singleton] at hs
                     subst hs; rfl
-                  · exact undo_rename (fs := fs) (m := st.mem) (mem := mem) (mem2 := mem2) (file := file)
+                  · exact Chain.single <| undo_rename (fs := fs) (m := st.mem) (mem := mem) (mem2 := mem2) (file := file)
                       (newFile := newFile) (f' := f')
                       { index := i, fp := fp, target := target, final := newName, report := rep,
                         patchName := entry.name,
                         beforeRename := some (file.deleted, newFile.deleted, newFile.perms) }
-                      hext1 hget1 hext2 hget2 hnf hw happ rfl
+                      hext1 hget1 hext2 hget2 hnf hw happ rfl hren hnew
         · rename_i hren
           have hren : fp.rename = false := by simpa using hren
           split at h
@@ -127,10 +127,10 @@ theorem applyOne_ok_sim {fs : FS} {st st' : St} {t : ATree} {cfg : Cfg} {i : Nat
             · intro s hs
               simp only [List.mem_singleton] at hs
               subst hs; rfl
-            · exact undo_plain (fs := fs) (m := st.mem) (mem := mem) (file := file) (f' := f')
+            · exact Chain.single <| undo_plain (fs := fs) (m := st.mem) (mem := mem) (file := file) (f' := f')
                 { index := i, fp := fp, target := target, final := target, report := rep,
                   patchName := entry.name, beforeRename := none }
-                hext1 hget1 hw happ rfl
+                hext1 hget1 hw happ rfl hren rfl
 
 theorem applyOne_err_sim {fs : FS} {st : St} {t : ATree} {cfg : Cfg} {i : Nat} {entry : Series.Entry}
     {fp : PFilePatch} {e : Fail}
